@@ -155,8 +155,7 @@ impl E {
     /// the expression whose value is the integer v (SQL has no negative literals)
     fn of_int(v: i64) -> E {
         if v >= 0 { E::Lit(v as u64) }
-        else if v == i64::MIN { E::Bin(Bop::Sub, Box::new(E::Un(Uop::Neg, Box::new(E::Lit(i64::MAX as u64)))), Box::new(E::Lit(1))) }
-        else { E::Un(Uop::Neg, Box::new(E::Lit((-v) as u64))) }
+        else { E::Un(Uop::Neg, Box::new(E::Lit(v.unsigned_abs()))) }      // -9223372036854775808 is read as one signed numeral
     }
     fn sql(&self) -> String {
         match self {
@@ -236,39 +235,26 @@ fn exact_bin(o: Bop, a: i64, b: i64) -> X {
         Bop::BAnd => X::Int(a & b), Bop::BOr => X::Int(a | b),
     }
 }
-/// (exact result, an overflowing step was met, a ^ b with b >= 2^32 occurs)
-fn exact(e: &E) -> (X, bool, bool) {
+/// the exact result (Model/Arith.v `exact`)
+fn exact(e: &E) -> X {
     match e {
-        E::Lit(n) => (if *n <= i64::MAX as u64 { X::Int(*n as i64) } else { X::Over }, false, false),
-        E::Null => (X::NullP, false, false),
-        E::Un(o, a) => {
-            let (x, ov, big) = exact(a);
-            match x {
-                X::Int(v) => {
-                    let r = match o { Uop::Neg => in64(-(v as i128)), Uop::Pos => X::Int(v), Uop::BNot => X::Int(!v) };
-                    (r, ov || r == X::Over, big)
-                }
-                r => (r, ov, big),
-            }
-        }
+        E::Lit(n) => if *n <= i64::MAX as u64 { X::Int(*n as i64) } else { X::Over },
+        E::Null => X::NullP,
+        E::Un(Uop::Neg, a) if matches!(**a, E::Lit(_)) => { if let E::Lit(n) = **a { in64(-(n as i128)) } else { X::Any } }
+        E::Un(o, a) => match exact(a) {
+            X::Int(v) => match o { Uop::Neg => in64(-(v as i128)), Uop::Pos => X::Int(v), Uop::BNot => X::Int(!v) },
+            r => r,
+        },
         E::Bin(o, l, r) => {
-            let (xl, ol, bl) = exact(l);
-            let (xr, or, br) = exact(r);
-            let big = bl || br || (*o == Bop::Pow && matches!(**r, E::Lit(n) if n >= (1u64 << 32)));
-            let mut ov = ol || or;
-            let x = match (xl, xr) {
-                (X::Int(a), X::Int(b)) => {
-                    let x = exact_bin(*o, a, b);
-                    if x == X::Over || (*o == Bop::Rem && a == i64::MIN && b == -1) { ov = true; }
-                    x
-                }
+            let (xl, xr) = (exact(l), exact(r));
+            match (xl, xr) {
+                (X::Int(a), X::Int(b)) => exact_bin(*o, a, b),
                 (X::Any, _) | (_, X::Any) => X::Any,
                 (X::Over, X::Int(_)) | (X::Int(_), X::Over) | (X::Over, X::Over) => X::Over,
                 (X::Over, _) | (_, X::Over) => X::Any,
                 (X::DivZ, _) | (_, X::DivZ) => X::DivZ,
                 _ => X::NullP,
-            };
-            (x, ov, big)
+            }
         }
     }
 }
@@ -288,12 +274,14 @@ fn wf(e: &E) -> bool {
     match e {
         E::Lit(n) => *n <= i64::MAX as u64,
         E::Null => true,
+        E::Un(Uop::Neg, a) if matches!(**a, E::Lit(_)) => matches!(**a, E::Lit(n) if n <= 1u64 << 63),
         E::Un(_, a) => wf(a),
         E::Bin(Bop::Pow, l, r) => wf(l) && matches!(**r, E::Lit(n) if n <= i64::MAX as u64),
         E::Bin(_, l, r) => wf(l) && wf(r),
     }
 }
-fn arith_class(e: &E) -> u32 { let (_, ov, big) = exact(e); if big { 2 } else if ov { 1 } else { 0 } }
+/// 1: some step is not an i64, an error is required (the evaluator shows NULL: F-C20-1)
+fn arith_class(e: &E) -> u32 { if exact(e) == X::Over { 1 } else { 0 } }
 
 const BOUNDARY: [i64; 44] = [0, 1, -1, 2, -2, 3, -3, 5, 7, -7, 10, 31, 32, 62, 63, 64, 65, 100, 255, 256, -256, 65535,
     2147483647, 2147483648, -2147483648, 4294967295, 4294967296, -4294967296, 3037000499, 3037000500, -3037000500,
@@ -332,7 +320,7 @@ fn arith_case(w: &mut CaseWriter, sut: &mut Sut, e: &E, kind: &str) {
     let sql = e.sql();
     let o1 = sut.select1(&format!("SELECT {}", sql));
     let o2 = sut.select1(&format!("SELECT {} FROM one", sql));
-    let (x, _, _) = exact(e);
+    let x = exact(e);
     let cls = arith_class(e);
     w.count(&format!("arith:out:{}", o1.bucket()), 1);
     w.count(&format!("arith:class{}", cls), 1);
@@ -367,7 +355,7 @@ fn rand_num_args(rng: &mut Rng, name: &str) -> Vec<Option<i64>> {
     let f = NFNS.iter().find(|x| x.0 == name).unwrap();
     let n = f.2 + rng.below((f.3 - f.2 + 1) as u64) as usize;
     let mut v: Vec<Option<i64>> = (0..n).map(|_| if rng.chance(1, 8) { None } else { Some(rand_int(rng)) }).collect();
-    if name == "ROUND" || name == "TRUNCATE" { if n == 2 { v[1] = if rng.chance(1, 4) { None } else { Some(0) }; } }
+    if name == "ROUND" || name == "TRUNCATE" { if n == 2 { v[1] = if rng.chance(1, 5) { None } else { Some(rng.range(0, 4)) }; } }
     if name == "MOD" || name == "DIV" { if rng.chance(1, 6) { v[1] = Some(0); } if rng.chance(1, 8) { v[1] = Some(-1); } }
     v
 }
@@ -424,9 +412,9 @@ fn str_args_runnable(name: &str, args: &[SA]) -> bool {
     match name {
         "REPEAT" => int(1).map_or(true, |n| n <= 64) || null(0) || text_empty(0),
         "SPACE" => int(0).map_or(true, |n| n <= 256),
+        // a negative length returns NULL (fix c7e0f53); a huge positive one still allocates / loops that much
         "LPAD" => int(1).map_or(true, |n| n <= 256) || null(0) || null(2),
-        // RPAD with a negative or huge length and a non-empty pad never terminates
-        "RPAD" => int(1).map_or(true, |n| (0..=256).contains(&n)) || null(0) || null(2) || text_empty(2),
+        "RPAD" => int(1).map_or(true, |n| n <= 256) || null(0) || null(2) || text_empty(2),
         _ => true,
     }
 }
@@ -488,7 +476,7 @@ fn rand_str_args(rng: &mut Rng, name: &str) -> Vec<SA> {
     let mut v: Vec<SA> = match name {
         "LEFT" | "RIGHT" => vec![t(rng), SA::I(rand_small_int(rng))],
         "SUBSTR" => { let mut v = vec![t(rng), SA::I(rand_small_int(rng))]; if n == 3 { v.push(SA::I(rand_small_int(rng))); } v }
-        "LPAD" | "RPAD" => vec![t(rng), SA::I(match rng.below(10) { 0 => -1, 1 => i64::MIN, 2 => 0, _ => rng.range(0, 14) }), if rng.chance(1, 6) { SA::T(String::new()) } else { t(rng) }],
+        "LPAD" | "RPAD" => vec![t(rng), SA::I(match rng.below(10) { 0 => -1, 1 => i64::MIN, 2 => 0, 3 => rng.range(-9, -1), _ => rng.range(0, 14) }), if rng.chance(1, 6) { SA::T(String::new()) } else { t(rng) }],
         "INSTR" => { let h = rand_string(rng); let nd = if rng.chance(2, 3) { rand_substring(rng, &h) } else { rand_string(rng) }; vec![SA::T(h), SA::T(nd)] }
         "LOCATE" => { let h = rand_string(rng); let nd = if rng.chance(2, 3) { rand_substring(rng, &h) } else { rand_string(rng) };
                       let mut v = vec![SA::T(nd), SA::T(h)]; if n == 3 { v.push(SA::I(match rng.below(8) { 0 => 0, 1 => -1, 2 => i64::MAX, _ => rng.range(1, 9) })); } v }
@@ -611,9 +599,13 @@ fn rand_numeral(rng: &mut Rng) -> String {
     }
 }
 fn cast_cases(w: &mut CaseWriter, sut: &mut Sut, rng: &mut Rng, thorough: bool) {
-    for x in BOUNDARY { for k in ["INT", "TEXT", "BOOL", "INT_OF_TEXT"] { cast_case(w, sut, k, &SA::I(x), "cast:boundary"); } cast_case(w, sut, "INT", &SA::T(x.to_string()), "cast:boundary"); }
+    for (i, x) in BOUNDARY.iter().enumerate() {
+        if !thorough && i % 4 != 0 && *x != i64::MIN && *x != i64::MAX { continue; }
+        for k in ["INT", "TEXT", "BOOL", "INT_OF_TEXT"] { cast_case(w, sut, k, &SA::I(*x), "cast:boundary"); }
+        cast_case(w, sut, "INT", &SA::T(x.to_string()), "cast:boundary");
+    }
     for k in CASTS { cast_case(w, sut, k.0, &SA::N, "cast:null"); }
-    let n = if thorough { 3_000 } else { 300 };
+    let n = if thorough { 3_000 } else { 90 };
     for _ in 0..n {
         match rng.below(4) {
             0 => { let k = *rng.pick(&["INT", "TEXT", "BOOL", "INT_OF_TEXT"]); cast_case(w, sut, k, &SA::I(rand_int(rng)), "cast:random_int"); }
@@ -639,8 +631,9 @@ fn flt_case(w: &mut CaseWriter, id: u32, n: i64, kind: &str) {
     w.push(format!("CFlt {} {} {}", id, zi(n as i128), d.coq()), format!("flt {} {}", id, n), true, kind);
 }
 fn flt_cases(w: &mut CaseWriter, rng: &mut Rng, thorough: bool) {
-    let n = if thorough { 4_000 } else { 300 };
-    for id in 0..15u32 { for x in [0i64, 1, -1, 2, 3, 1 << 26, -(1 << 26), 12345] { flt_case(w, id, x, "flt:boundary"); } }
+    let n = if thorough { 4_000 } else { 60 };
+    let bs: &[i64] = if thorough { &[0, 1, -1, 2, 3, 1 << 26, -(1 << 26), 12345] } else { &[0, -1, 1 << 26] };
+    for id in 0..15u32 { for x in bs.iter().copied() { flt_case(w, id, x, "flt:boundary"); } }
     for _ in 0..n { let id = rng.below(15) as u32; let x = match rng.below(3) { 0 => rng.range(-20, 20), 1 => rng.range(-67108864, 67108864), _ => rng.range(-100000, 100000) }; flt_case(w, id, x, "flt:random"); }
 }
 
@@ -660,7 +653,7 @@ fn gen(a: &Args) {
     for (o, _, _) in BOPS {
         for (i, x) in BOUNDARY.iter().enumerate() {
             for (j, y) in BOUNDARY.iter().enumerate() {
-                if !thorough && (i * 7 + j * 3 + o as usize) % 11 != 0 { continue; }
+                if !thorough && (i * 7 + j * 3 + o as usize) % 61 != 0 { continue; }
                 if o == Bop::Pow && *y < 0 { continue; }
                 let r = if o == Bop::Pow { E::Lit(*y as u64) } else { E::of_int(*y) };
                 let e = E::Bin(o, Box::new(E::of_int(*x)), Box::new(r));
@@ -669,7 +662,7 @@ fn gen(a: &Args) {
         }
     }
     for (u, _, _, _) in UOPS { for x in BOUNDARY { arith_case(&mut w, &mut sut, &E::Un(u, Box::new(E::of_int(x))), "arith:unary"); } }
-    let n_tree = if thorough { 30_000 } else { 1_500 };
+    let n_tree = if thorough { 30_000 } else { 450 };
     for _ in 0..n_tree {
         let d = 1 + rng.below(3) as u32;
         let e = rand_expr(&mut rng, d);
@@ -677,22 +670,24 @@ fn gen(a: &Args) {
     }
     // ---- numeric functions
     for f in NFNS {
-        if f.2 == 1 { for x in BOUNDARY { num_case(&mut w, &mut sut, f.0, &[Some(x)], "num:boundary"); } num_case(&mut w, &mut sut, f.0, &[None], "num:null"); }
-        let n = if thorough { 1_500 } else { 120 };
+        if f.2 == 1 { for (i, x) in BOUNDARY.iter().enumerate() { if thorough || i % 3 == 0 || *x == i64::MIN { num_case(&mut w, &mut sut, f.0, &[Some(*x)], "num:boundary"); } } num_case(&mut w, &mut sut, f.0, &[None], "num:null"); }
+        let n = if thorough { 1_500 } else { 25 };
         for _ in 0..n { let args = rand_num_args(&mut rng, f.0); num_case(&mut w, &mut sut, f.0, &args, "num:random"); }
     }
     // ---- string functions: Unicode strings from all planes
     for f in SFNS {
-        let n = if thorough { 2_000 } else { 160 };
+        let n = if thorough { 2_000 } else { 36 };
         for _ in 0..n { let args = rand_str_args(&mut rng, f.0); str_case(&mut w, &mut sut, f.0, &args, "str:random"); }
     }
-    for s0 in ["", "a", "héllo", "e\u{301}\u{301}", "日本語", "𝄞x", "a\u{10FFFF}b", "  x  ", "\u{3000}x\u{a0}", "it's", "ÀB", "ß"] {
+    let fixed: &[&str] = if thorough { &["", "a", "héllo", "e\u{301}\u{301}", "日本語", "𝄞x", "a\u{10FFFF}b", "  x  ", "\u{3000}x\u{a0}", "it's", "ÀB", "ß"] } else { &["", "héllo", "e\u{301}𝄞x", "\u{3000}x\u{a0}", "it's"] };
+    for s0 in fixed.iter().copied() {
         for f in SFNS {
             if f.2 != 1 || f.3 != 1 || f.0 == "SPACE" { continue; }
             if (f.0 == "UPPER" || f.0 == "LOWER") && !s0.is_ascii() { continue; }       // Unicode case mapping is not modelled
             str_case(&mut w, &mut sut, f.0, &[SA::T(s0.to_string())], "str:fixed");
         }
-        for k in [-1i64, 0, 1, 2, 3, 100, i64::MAX, i64::MIN] {
+        let ks: &[i64] = if thorough { &[-1, 0, 1, 2, 3, 100, i64::MAX, i64::MIN] } else { &[-1, 0, 2, i64::MAX, i64::MIN] };
+        for k in ks.iter().copied() {
             for nm in ["LEFT", "RIGHT", "SUBSTR"] { str_case(&mut w, &mut sut, nm, &[SA::T(s0.to_string()), SA::I(k)], "str:fixed"); }
         }
     }
@@ -702,11 +697,11 @@ fn gen(a: &Args) {
     flt_cases(&mut w, &mut rng, thorough);
     // ---- date functions
     for f in DFNS {
-        let n = if thorough { 2_500 } else { 250 };
+        let n = if thorough { 2_500 } else { 36 };
         for _ in 0..n { let args = rand_date_args(&mut rng, f.0); date_case(&mut w, &mut sut, f.0, &args, "date:random"); }
     }
     // every month boundary of a block of years (every 23rd year in the thorough tier), and both ends of the range
-    let years: Vec<i64> = if thorough { (1..=9999).step_by(23).chain([4, 100, 400, 1900, 2000, 2024, 9999]).collect() } else { vec![1, 4, 100, 1900, 2000, 2023, 2024, 9999] };
+    let years: Vec<i64> = if thorough { (1..=9999).step_by(23).chain([4, 100, 400, 1900, 2000, 2024, 9999]).collect() } else { vec![1, 1900, 2024, 9999] };
     for y in years {
         for m in 1..=12 {
             let last = dim(y, m);
@@ -771,19 +766,18 @@ fn exp_ok(x: &Exp, o: &Out) -> bool {
         },
     }
 }
-fn r53(n: i64) -> i128 { (n as f64) as i128 }
 fn num_exact(name: &str, a: &[Option<i64>]) -> (Exp, u32) {
     let ints: Vec<i64> = a.iter().flatten().cloned().collect();
     let any_null = a.iter().any(|x| x.is_none());
     let in64 = |x: i128| if x >= i64::MIN as i128 && x <= i64::MAX as i128 { Exp::Int(x) } else { Exp::Over };
-    let f64_class = |e: Exp| { let c = if ints.iter().any(|n| r53(*n) != *n as i128) { 3 } else { 0 }; (e, c) };
     match (name, a) {
         ("ABS", [Some(n)]) => { let e = in64((*n as i128).abs()); let c = if e == Exp::Over { 1 } else { 0 }; (e, c) }
         ("SIGN", [Some(n)]) => (Exp::Int(n.signum() as i128), 0),
         ("CEIL", [Some(n)]) | ("FLOOR", [Some(n)]) => (Exp::Int(*n as i128), 0),
-        ("ROUND", [Some(n)]) | ("TRUNCATE", [Some(n)]) | ("ROUND", [Some(n), Some(0)]) | ("TRUNCATE", [Some(n), Some(0)]) => f64_class(Exp::Int(*n as i128)),
+        ("ROUND", [Some(n)]) | ("TRUNCATE", [Some(n)]) => (Exp::Int(*n as i128), 0),
+        ("ROUND", [Some(n), Some(d)]) | ("TRUNCATE", [Some(n), Some(d)]) => (if *d >= 0 { Exp::Int(*n as i128) } else { Exp::Any }, 0),
         ("ABS", [None]) | ("SIGN", [None]) | ("CEIL", [None]) | ("FLOOR", [None]) | ("ROUND", [None]) | ("TRUNCATE", [None]) => (Exp::Null, 0),
-        ("MOD", [Some(x), Some(y)]) => f64_class(if *y == 0 { Exp::DivZ } else { Exp::Int((*x as i128) % (*y as i128)) }),
+        ("MOD", [Some(x), Some(y)]) => (if *y == 0 { Exp::DivZ } else { Exp::Int((*x as i128) % (*y as i128)) }, 0),
         ("DIV", [Some(x), Some(y)]) => { let e = if *y == 0 { Exp::DivZ } else { in64((*x as i128) / (*y as i128)) }; let c = if e == Exp::Over { 1 } else { 0 }; (e, c) }
         ("MOD", [_, _]) | ("DIV", [_, _]) => (Exp::Null, 0),
         ("GREATEST", [Some(_), ..]) => (if any_null { Exp::Any } else { Exp::Int(*ints.iter().max().unwrap() as i128) }, 0),
@@ -808,14 +802,7 @@ fn str_exact(name: &str, a: &[SA]) -> (Exp, u32) {
     let cs = |i: usize| -> Option<Vec<char>> { match a.get(i) { Some(SA::T(s)) => Some(s.chars().collect()), _ => None } };
     let int = |i: usize| -> Option<i64> { match a.get(i) { Some(SA::I(n)) => Some(*n), _ => None } };
     let txt = |v: Vec<char>| Exp::Text(v.into_iter().collect());
-    let mut class = 0;
-    match name {
-        "INSTR" => if let (Some(h), Some(n)) = (cs(0), cs(1)) { if let Some(k) = find_chars(&h, &n) { if !h[..k].iter().all(|c| c.is_ascii()) { class = 4; } } },
-        "SUBSTR" => if cs(0).is_some() { if int(1) == Some(i64::MIN) { class = 5; } else if int(1).is_some() && a.len() == 3 && a[2] == SA::N { class = 7; } },
-        "LPAD" => if let (Some(_), Some(n), Some(p)) = (cs(0), int(1), cs(2)) { if n < 0 && !p.is_empty() { class = 6; } },
-        "LOCATE" => if cs(0).is_some() && cs(1).is_some() && a.len() == 3 && a[2] == SA::N { class = 7; },
-        _ => {}
-    }
+    let class = 0;          // no recorded class is left for the string functions
     if a.iter().any(|x| *x == SA::N) { return (Exp::Null, class); }
     let e = match (name, a.len()) {
         ("LENGTH", 1) => match &a[0] { SA::T(s) => Exp::Int(s.len() as i128), _ => Exp::Any },
@@ -880,23 +867,7 @@ fn date_of_rata(n: i64) -> (i64, i64, i64) {
 fn date_exact(name: &str, a: &[DA]) -> (Exp, u32) {
     let real = |x: &DA| matches!(x, DA::D(y, m, d) if *y >= 1 && *y <= 9999 && is_valid_date(*y, *m, *d));
     let fmt = |(y, m, d): (i64, i64, i64)| Exp::Text(format!("{:04}-{:02}-{:02}", y, m, d));
-    // class 8 (same predicate as dfn_class in Model/DateFun.v): the day arithmetic, done in i64 in the order the code does it, overflows
-    let dtd_safe = |days: i64| -> bool { (|| {
-        let z = days.checked_add(306)?; let h = 100i64.checked_mul(z)?.checked_sub(25)?; let a = h / 3652425; let b = a.checked_sub(a / 4)?;
-        let y = 100i64.checked_mul(b)?.checked_add(h)? / 36525; let c = b.checked_add(z)?.checked_sub(365i64.checked_mul(y)?)?.checked_sub(y / 4)?;
-        let m = 5i64.checked_mul(c)?.checked_add(456)? / 153; c.checked_sub(153i64.checked_mul(m)?.checked_sub(457)? / 5)?;
-        if m > 12 { y.checked_add(1)?; } Some(()) })().is_some() };
-    let to_days = |y: i64, m: i64, d: i64| -> i64 { let (yy, mm) = if m <= 2 { (y - 1, m + 12) } else { (y, m) }; 365 * yy + yy / 4 - yy / 100 + yy / 400 + (153 * (mm - 3) + 2) / 5 + d - 306 };
-    let mut class = 0;
-    match (name, a) {
-        ("FROM_DAYS", [DA::I(n)]) => if !dtd_safe(*n) { class = 8; },
-        ("DATE_ADD", [DA::D(y, m, d), DA::I(k)]) | ("DATE_SUB", [DA::D(y, m, d), DA::I(k)]) => {
-            let base = to_days(*y, *m, *d);
-            let n = if name == "DATE_ADD" { base.checked_add(*k) } else { base.checked_sub(*k) };
-            if !n.map_or(false, dtd_safe) { class = 8; }
-        }
-        _ => {}
-    }
+    let class = 0;          // no recorded class is left for the date functions
     if matches!(a.first(), Some(DA::N)) || (a.len() == 2 && a[1] == DA::N) { return (Exp::Null, class); }
     let e = match (name, a) {
         (_, [x @ DA::D(y, m, d)]) if real(x) => match name {
@@ -936,7 +907,7 @@ fn search(a: &Args) {
                 let d = 1 + rng.below(3) as u32;
                 let e = rand_expr(&mut rng, d);
                 let o = sut.select1(&format!("SELECT {}", e.sql()));
-                let (x, _, _) = exact(&e);
+                let x = exact(&e);
                 if !obs_ok(x, &o) { note(&mut fails, format!("arith {}", e.sexp()), arith_class(&e)); }
             }
             4 | 5 => {
